@@ -9,7 +9,7 @@ package tss
 // (kept by every writer in the module): a stored group / signing is filed under its own id, the counters are ordered.
 //@ func EndBlocker
 //@ may_panic calls
-//@ modifies Store_tss, Other, Bank, Count_OnGroupCreationCompleted, Count_OnGroupCreationFailed
+//@ modifies Store_tss, Other, Bank, Count_OnGroupCreationCompleted, Count_OnGroupCreationFailed, AssignNonce, AssignMsg, AssignGroup, Count_OnSigningCompleted, CompletedWith
 //@ requires keeper.wfGroups(Store_tss) && keeper.wfPending(Store_tss) && keeper.wfSignings(Store_tss)
 //@ requires forall g Int :: has(Store_tss, types.GroupStoreKey(g)) ==> keeper.groupAt(Store_tss, g).ID == g
 //@ ensures err == nil
